@@ -15,6 +15,7 @@ CHECKS = {
         'bound': {
             'quick': 'decode/delta_decode: EVERY byte string of length <= 3 (reference [00,00]; lengths <= 2 also against [aa,55,01,02]); '
                      'round trip: every reference of length <= 2 and every sequence of <= 2 inputs of length <= 3 (<= 3 inputs of length <= 2) over the alphabet {00,01,ff,80}; '
+                     '360 structured long cases (1-3 inputs of lengths 0..3, 254..258, 511..513, 1000, 4096, 65534, 65535 and 127..130 / 200 / 300 inputs of lengths 0, 1, 4, against references of 0, 2, 300 bytes, constant and varying content); '
                      '2000 seeded long inputs (lengths up to 8193, runs of 00/ff around the run-length / varint boundaries)',
             'thorough': 'as quick, plus: length-3 strings against both references, all length-4 strings over a 24-value boundary alphabet, 5..11-byte varints, '
                         '<= 3 inputs of length <= 3 in the round trip, 20000 seeded long inputs',
@@ -84,6 +85,7 @@ def run_checks(repo, names, tier, scratch, seed):
             rec['evaluations'] = int(m.group(1))
             rec['accepted_payloads'] = int(m.group(2))
             cases = re.findall(r'^VIOLATION-CASE ([a-z]+)\|([0-9a-f]*)\|([0-9a-f,]*) :: (.*)$', p.stdout, re.M)
+            cases.sort(key=lambda c_: 0 if c_[0] in ('decode', 'delta', 'rt', 'gen') else 1)  # replayable ones first
             if int(m.group(3)) == 0 and p.returncode == 0:
                 rec['status'] = 'verified'
             else:
@@ -91,7 +93,7 @@ def run_checks(repo, names, tier, scratch, seed):
                 rec['msg'] = '; '.join(c[3][:200] for c in cases[:3]) or 'violations reported'
                 if cases:
                     kind, rh, dh, desc = cases[0]
-                    if kind in ('decode', 'delta', 'rt'):
+                    if kind in ('decode', 'delta', 'rt', 'gen'):
                         rp = subprocess.run([exe, 'replay', kind, rh, dh], env=env, capture_output=True, text=True, timeout=600)
                         rec['witness'] = {'confirmed': 'REPLAY-FAIL' in rp.stdout, 'kind': kind, 'reference_hex': rh, 'data_hex': dh,
                                           'replay_cmd': 'cd %s && VERIF_REPO_SRC=%s/src cargo run --release --offline -- replay %s %s %s' % (d, repo, kind, rh, dh),
